@@ -403,3 +403,85 @@ def verify_execute(pc, E):
                  may_raise_any=True, returns=TObj(), prop=['C02'])
     E.add_contract(c, key='clastic.route.BoundRoute.execute_error#verify')
     pc.add_functions(E, ['clastic.route.BoundRoute.execute#verify', 'clastic.route.BoundRoute.execute_error#verify'])
+
+
+# ---- converter closures of build_converter (C05) ---------------------------------------------
+_ra = z3.Const('rmv!a', Z.Str)
+_rb = z3.Const('rmv!b', Z.Str)
+_RMV = Z.func('str_replace_all', Z.Str, Z.Str, Z.Str, Z.Str)
+_SL, _E = z3.StringVal('/'), z3.StringVal('')
+# A-str (used as ground instances in verify_converters): removing one character distributes over
+# concatenation; removing '/' from a run of slashes leaves ''; a string without '/' is unchanged
+
+
+def verify_converters(pc, E):
+    """single_converter (the closure build_converter returns for '', ':' and '?' bindings): given the text the
+    route regex captures for the binding -- a non-empty run of separators followed by one slash-free
+    segment, or nothing for an absent optional binding -- the type converter is applied to exactly
+    that segment."""
+    import ast as _ast
+    from pyvc.run import Item
+    from pyvc.state import RaiseSig
+    mod = E.repo.module('clastic.route')
+    outer = mod.funcs.get('build_converter')
+    inner = None
+    if outer is not None:
+        for n in _ast.walk(outer):
+            if isinstance(n, _ast.FunctionDef) and n.name == 'single_converter':
+                inner = n
+    if inner is None:
+        pc.undecided.append(('build_converter.single_converter is no longer a nested def', None, 'clastic.route.build_converter'))
+        return
+
+    def conv_rec(I, ctx, conv, value):
+        ctx.trace.append(('conv', I.resolve(ctx, value)))
+        k = ctx.nondet(2, 'converter')
+        if k == 1:
+            raise RaiseSig(I.make_exc(ctx, 'builtins.ValueError', [VStr('invalid literal')]), None)
+        return VObj(Z.func('CONVERTED', Z.Obj, Z.Obj, Z.Obj)(conv.z, box(value, ctx)))
+
+    def setup(E_, ctx, fr):
+        E_.opaque['Conv'].methods['__call__'] = conv_rec
+        fr.locals['converter'] = TConv.fresh(ctx, 'converter')
+        fr.locals['optional'] = TBool.fresh(ctx, 'optional')
+        seps = Z.fresh('seps', Z.Str)
+        seg = Z.fresh('segment', Z.Str)
+        v = fr.locals['value']
+        present = z3.And(v.z == z3.Concat(seps, seg), z3.InRe(seps, z3.Plus(z3.Re('/'))),
+                         z3.Not(z3.Contains(seg, z3.StringVal('/'))), z3.Length(seg) > 0)
+        absent = z3.And(v.z == z3.StringVal(''), fr.locals['optional'].z if hasattr(fr.locals['optional'], 'z') else Z.TRUE)
+        ctx.assume(z3.Or(present, absent))
+        # ground instances of the three A-str facts about removing one character (the quantified
+        # forms are in the axiom list; the string solver does not instantiate them on its own)
+        ctx.assume(_RMV(z3.Concat(seps, seg), _SL, _E) == z3.Concat(_RMV(seps, _SL, _E), _RMV(seg, _SL, _E)))
+        ctx.assume(z3.Implies(z3.InRe(seps, z3.Star(z3.Re('/'))), _RMV(seps, _SL, _E) == _E))
+        ctx.assume(z3.Implies(z3.Not(z3.Contains(seg, _SL)), _RMV(seg, _SL, _E) == seg))
+        E_.specns['SEG'] = VStr(seg)
+        E_.specns['ABSENT'] = VBool(v.z == z3.StringVal(''))
+
+    @E.spec('CONVERTER_APPLIED_TO')
+    def CONVERTER_APPLIED_TO(I, ctx, seg):
+        evs = [e for e in ctx.trace if e[0] == 'conv']
+        if len(evs) != 1 or not isinstance(evs[0][1], VStr):
+            return VBool(False)
+        return VBool(evs[0][1].z == seg.z)
+
+    @E.spec('NO_CONVERSION')
+    def NO_CONVERSION(I, ctx):
+        return VBool(not [e for e in ctx.trace if e[0] == 'conv'])
+
+    c = Contract('clastic.route.build_converter.<single_converter>',
+                 params={'value': TStr}, setup=setup,
+                 ensures=['implies(ABSENT, result is None and NO_CONVERSION())',
+                          'ABSENT or CONVERTER_APPLIED_TO(SEG)'],
+                 exc_ensures=['not ABSENT and CONVERTER_APPLIED_TO(SEG)'],
+                 may_raise_any=True, returns=TObj(), prop=['C05'])
+    res = E.verify_node(c, mod, inner)
+    pc.functions.append({'function': 'build_converter.single_converter (nested def, extracted by name)', 'file': 'clastic/route.py',
+                         'lines': [inner.lineno, inner.end_lineno], 'sha1': None, 'paths': res.paths,
+                         'obligation_instances': len(res.obligations)})
+    for why, line in res.undecided:
+        pc.undecided.append((why, line, 'single_converter'))
+    for o in res.obligations:
+        pc.add_item(Item(o.clause.replace('route.build_converter.<single_converter>', 'C05.K/single_converter'),
+                         'K', o.pc, o.goal, o.func, o.lineno, o.note, dict(o.extra, trail=o.trail)))
